@@ -991,4 +991,8 @@ theorem annR_readReqOps (o : Oracle V E) (k : Cid) (p : Pid) (inner : List V) (r
     annR o (readReqOps o k p inner res) = (readEvs o inner res).map (fun ev => (p, resolve o ev)) := by
   simp [readReqOps, annR_append, annR, annR_guarded]
 
+theorem annR_doOps (o : Oracle V E) (k : Cid) (p : Pid) (inner : List V) :
+    annR o (doOps k p inner : List (Op V E)) = (innerEvs inner).map (fun ev => (p, resolve o ev)) := by
+  simp [doOps, annR_append, annR, annR_announces]
+
 end Frappy.UpdateSys
